@@ -752,6 +752,11 @@ func (interp *Interpreter) cfg(root *node, sc *scope, importPath, pkgName string
 						}
 						// Do not overload existing symbols (defined in GTA) in global scope.
 						sym, _, _ = sc.lookup(dest.ident)
+						if !sc.global {
+							// A variable redeclared in its own scope is assigned, not created: it keeps its type.
+							dest.redeclared = true
+							dest.typ = sym.typ
+						}
 					}
 					if sym == nil {
 						sym = &symbol{index: sc.add(dest.typ), kind: varSym, typ: dest.typ}
